@@ -1,8 +1,152 @@
-(** C04 — Compaction preserves the logical content of TSM files.  Property theorems only. *)
-From Verif Require Import Base.Prelude Model.C37 Model.C04 Proofs.C04.
+(** C04 — Compaction preserves the logical content of TSM files.  Property theorems only.
 
-Theorem C04_chunk_size : forall (V : Type) (size : nat) (dst : list (blk V)) mv,
+    Model (coq/Model/C04.v): [run_key] = tsmBatchKeyIterator restricted to one key (sort.Stable
+    with blocks.Less, the dedup decision of mergeFloat, combineFloat with both paths and [fast],
+    chunkFloat, the Next/Read protocol); [run_files] = the key merge over the input files;
+    [compact] = + file rolling; [snapshot] = the cache path.  A block payload is its decoded
+    point list.  All theorems are for ANY number of files, keys, blocks, points, tombstone
+    ranges, any points-per-block [size] > 0, full or fast — no bounds.
+
+    The statements are partial-correctness statements about the mirror: "if the run returns
+    [Some …]".  The mirror's loops carry fuel ([key_fuel], [files_fuel]); that the fuel always
+    suffices (termination) is NOT proved — the judge reports any case where it does not, and
+    [C04_nonvacuous] shows concrete runs. *)
+From Coq Require Import Sorted.
+From Verif Require Import Base.Prelude Model.C37 Proofs.C37 Model.C04 Proofs.C04 Proofs.C04_keys
+     Proofs.C04_size Proofs.C04_blocks Proofs.C04_run Proofs.C04_files.
+Local Open Scope Z_scope.
+
+(** ** Content.  [fwf]: index keys of a file strictly increasing; every block non-empty,
+    strictly increasing in time, index min/max = first/last timestamp, timestamps int64.
+    NOTHING is assumed about order or overlap of the blocks of a key, inside a file or across
+    files.  [content_spec k fs] = per file the points of [k] outside the file's tombstone
+    ranges; files merged in argument order, a later file (and a later block) overriding an
+    earlier one on equal timestamps; sorted by time. *)
+(** FULL STATEMENT (not proved): additionally [exists files, compact size fast fs = Some files]
+    (the mirror's fuel always suffices).  Proved: the partial-correctness part. *)
+Theorem C04_compact_content_partial :
+  forall (V : Type) (size : nat) (fast : bool) (fs : list (file V)) (files : list (out_seq V)),
+    (0 < size)%nat -> Forall fwf fs -> compact size fast fs = Some files ->
+    forall k, out_content k (concat files) = content_spec k fs.
+Proof.
+  intros V size fast fs files Hs W. unfold compact.
+  destruct (run_files (files_fuel fs) size fast fs) as [sq|] eqn:E; [|discriminate].
+  intros [= <-] k. rewrite roll_concat. unfold out_content.
+  apply (run_files_content size fast Hs _ fs sq W E k).
+Qed.
+Print Assumptions C04_compact_content_partial.
+
+(** ** Blocks of one key do not overlap in time — at full strength: across all the files
+    written, the blocks of a key are well-formed (non-empty, strictly increasing, index range
+    = first/last point) and strictly ordered ([max] of a block < [min] of the next), also on
+    the pass-through and fast paths and for arbitrarily overlapping inputs: the dedup decision
+    of mergeFloat sends every overlapping neighbour pair through the window path, and the
+    window never skips an unread point (Proofs/C04_window.v). *)
+(** (same missing part as above: that the run returns) *)
+Theorem C04_compact_blocks_ordered_partial :
+  forall (V : Type) (size : nat) (fast : bool) (fs : list (file V)) (files : list (out_seq V)),
+    (0 < size)%nat -> Forall fwf fs -> compact size fast fs = Some files ->
+    forall k, let bs := seq_points k (concat files) in
+      forallb wf_blk bs = true /\ ordered bs = true.
+Proof.
+  intros V size fast fs files Hs W. unfold compact.
+  destruct (run_files (files_fuel fs) size fast fs) as [sq|] eqn:E; [|discriminate].
+  intros [= <-] k. rewrite roll_concat.
+  destruct (run_files_content size fast Hs _ fs sq W E k) as [_ [H2 H3]]. split; [|exact H3].
+  apply forallb_forall. rewrite Forall_forall in H2. exact H2.
+Qed.
+Print Assumptions C04_compact_blocks_ordered_partial.
+
+(** The same for one key and an ARBITRARY list of gathered blocks (the heart of the proof):
+    content = newest-wins merge of the live points, later blocks winning. *)
+Theorem C04_key_content_partial :
+  forall (V : Type) (size : nat) (fast : bool) (bs : list (blk V)) fuel out,
+    (0 < size)%nat -> Forall bwf bs -> Forall isfresh bs ->
+    run_key fuel size fast (mkst bs [] []) = Some out ->
+    concat (map b_vals out) = last_wins_sorted (concat (map live0 bs))
+    /\ Forall (fun b => wf_blk b = true) out /\ ordered out = true.
+Proof. intros V size fast bs fuel out. apply run_key_content. Qed.
+Print Assumptions C04_key_content_partial.
+
+(** ** Output files are sorted by key: the (key, block) sequence handed to the TSM writer has
+    non-decreasing keys (equal keys contiguous). *)
+Theorem C04_compact_sorted_keys : forall (V : Type) (size : nat) (fast : bool) (fs : list (file V)) sq,
+  Forall skeys fs -> run_files (files_fuel fs) size fast fs = Some sq ->
+  StronglySorted N.le (map fst sq).
+Proof.
+  intros V size fast fs sq Hs H.
+  apply (run_files_sorted size fast (files_fuel fs) fs 0%N sq Hs); [|exact H].
+  intros f g _ _. apply N.le_0_l.
+Qed.
+Print Assumptions C04_compact_sorted_keys.
+
+(** ** Block size, the code's actual guarantee: every block written for a key is either the
+    unchanged payload of one of the key's input blocks (pass-through: blocks with >= size
+    points, all unread blocks in fast mode, a single remaining block) or has at most [size]
+    points.  "No block exceeds points-per-block" is therefore true for blocks produced by
+    chunking and NOT for passed-through blocks, which keep their input size (e.g. 1000-point
+    blocks survive a compaction with a smaller [size]; see C04_compact_block_size_refuted). *)
+Theorem C04_compact_block_size_partial : forall (V : Type) (size : nat) (fast : bool) (bs : list (blk V)) fuel out,
+  run_key fuel size fast (mkst bs [] []) = Some out ->
+  Forall (fun b => In (b_vals b) (map b_vals bs) \/ (length (b_vals b) <= size)%nat) out.
+Proof. intros V. exact run_key_block_size. Qed.
+Print Assumptions C04_compact_block_size_partial.
+
+(** the literal reading "no block exceeds the requested points-per-block" is refuted by the
+    pass-through: one input block of 3 points, size 2, full compaction -> written unchanged *)
+Theorem C04_compact_block_size_refuted :
+  exists (size : nat) (bs : list (blk Z)) out,
+    run_key 20 size false (mkst bs [] []) = Some out /\
+    Forall bwf bs /\ exists b, In b out /\ (size < length (b_vals b))%nat.
+Proof.
+  exists 2%nat, [fresh 0 2 [(0, 7); (1, 7); (2, 7)] []].
+  eexists. split; [vm_compute; reflexivity|]. split.
+  - constructor; [|constructor]. split; cbn; try lia; try discriminate.
+    + repeat split; repeat constructor; cbn; lia.
+    + intros p [<-|[<-|[<-|[]]]]; cbn; unfold MinInt64, MaxInt64; lia.
+  - eexists. split; [left; reflexivity|]. cbn. lia.
+Qed.
+Print Assumptions C04_compact_block_size_refuted.
+
+(** ** Rolling ([Compactor.write] / [writeNewFiles]): the files are a split of the written
+    sequence into non-empty pieces — nothing is lost or duplicated at a file boundary. *)
+Theorem C04_roll_preserves : forall (A : Type) (limit : nat) (sq : list (N * A)),
+  concat (roll limit sq) = sq /\ Forall (fun f => f <> []) (roll limit sq).
+Proof. intros. split; [apply roll_concat|apply roll_go_nonempty]. Qed.
+Print Assumptions C04_roll_preserves.
+
+(** ** Cache snapshots (Snapshot; Deduplicate; WriteSnapshot): per key the written content is
+    the newest-wins, time-sorted content of the cache entry; blocks are well-formed, ordered,
+    disjoint and have at most [size] points. *)
+Theorem C04_snapshot_content : forall (V : Type) (size : nat) (cache : list (N * arr V)) k,
+  (0 < size)%nat -> NoDup (map fst cache) ->
+  out_content k (concat (snapshot size cache))
+  = last_wins_sorted (concat (map (fun e => if (fst e =? k)%N then snd e else []) cache)).
+Proof. intros. rewrite snapshot_is_cache_seq. apply cache_seq_content; assumption. Qed.
+Print Assumptions C04_snapshot_content.
+
+Theorem C04_snapshot_blocks : forall (V : Type) (size : nat) (vs : arr V),
   (0 < size)%nat ->
-  forall b, In b (fst (chunk size dst mv)) -> In b dst \/ (length (b_vals b) <= size)%nat.
-Proof. intros V. exact chunk_size_bound. Qed.
-Print Assumptions C04_chunk_size.
+  let bs := chunks size (vals_dedup vs) in
+  forallb wf_blk bs = true /\ ordered bs = true /\
+  (forall b, In b bs -> (length (b_vals b) <= size)%nat).
+Proof.
+  intros V size vs Hs bs. subst bs. split; [|split].
+  - apply chunks_fuel_wf; [exact Hs|apply dedup_sorted].
+  - apply chunks_ordered; [exact Hs|apply dedup_sorted].
+  - intros b. apply chunks_fuel_size.
+Qed.
+Print Assumptions C04_snapshot_blocks.
+
+(** Non-vacuity: three files whose blocks of key 1 overlap in a chain ([10,20], [5,12] with a
+    tombstone, [0,7]); both modes return, the later file wins at t = 12 and t = 5, the
+    tombstoned point is gone. *)
+Example C04_nonvacuous :
+  let f1 : file Z := [(1%N, [(10, 20, [(10, 1); (12, 1); (20, 1)])], [])] in
+  let f2 : file Z := [(1%N, [(5, 12, [(5, 2); (8, 2); (12, 2)])], [(8, 8)]); (2%N, [(1, 1, [(1, 2)])], [])] in
+  let f3 : file Z := [(1%N, [(0, 7, [(0, 3); (5, 3); (7, 3)])], [])] in
+  (exists files, compact 2 false [f1; f2; f3] = Some files /\
+     out_content 1%N (concat files) = [(0, 3); (5, 3); (7, 3); (10, 1); (12, 2); (20, 1)]) /\
+  (exists files, compact 2 true [f1; f2; f3] = Some files /\
+     out_content 2%N (concat files) = [(1, 2)]).
+Proof. split; eexists; split; vm_compute; reflexivity. Qed.
